@@ -139,7 +139,7 @@ theorem poll_closure_tie {σ : Type} (ops : SettingsOps σ) (pfx : Str) (c : Cli
       pubGetOf canPub (ops.get s path) fits (path.count '/') = some envG)
     (hS : ∀ path, topicPath pfx m.topic = some path → setResOf (ops.set s path m.payload).1 = some envS) :
     match poll_closure (envOf ops ((topicPath pfx m.topic).getD []) m envG envS) pfx
-        { st := stToGen c.st, pending := c.pending, acts := [] } m.topic m.payload with
+        ({ st := stToGen c.st, pending := c.pending, acts := [], ext := () } : Cl Unit Unit Pending Unit) m.topic m.payload with
     | .val (cl, ret) =>
       handleMsg ops pfx c s m canPub fits =
         ({ c with st := stOfGen cl.st, pending := cl.pending },
@@ -226,5 +226,143 @@ theorem poll_closure_tie {σ : Type} (ops : SettingsOps σ) (pfx : Str) (c : Cli
         simp only [setResOf, Option.some.injEq] at hS'
         subst hS'
         simp [outsOfActs, getTxtOf, retOfGen, bodyOfArg, bodyOfErr, codeOfGen, client_eta, setBody]
+
+/-! ### `update()` -/
+
+/-- what the environment's functions thread through: the settings, what was put on the wire, the dump time-out -/
+abbrev UExt (σ : Type) := σ × List Out
+
+abbrev UCl (σ : Type) := Cl Unit Unit Pending (UExt σ)
+
+/-- the dump time-out after the actions logged so far: `start_timeout` arms it at `now + DUMP_TIMEOUT` -/
+def tmoOf (tmo : Option Nat) (now : Nat) (log : List String) : Option Nat :=
+  if "start_timeout" ∈ log then some (now + DUMP_TIMEOUT_MS) else tmo
+
+def clientOf {σ : Type} (tmo : Option Nat) (now : Nat) (cl : UCl σ) : Client :=
+  { st := stOfGen cl.st, timeout := tmoOf tmo now cl.log, pending := cl.pending }
+
+def retToGen : Mqtt.Ret → Except Unit Gen.Mqtt.Ret
+  | .changed => .ok .Changed
+  | .unchanged => .ok .Unchanged
+  | _ => .error ()
+
+/-- the client's sub-procedures as the model has them, lifted to the translated client part -/
+def uenvOf {σ : Type} (ops : SettingsOps σ) (pfx : Str) (tmo : Option Nat) (o : Obs) : UEnv Unit Unit Pending (UExt σ) :=
+  { connected := o.connected,
+    alive := fun cl => (if o.aliveOk then { cl with ext := (cl.ext.1, cl.ext.2 ++ [Out.alive]) } else cl, o.aliveOk),
+    subscribe := fun cl => (if o.subOk then { cl with ext := (cl.ext.1, cl.ext.2 ++ [Out.sub]) } else cl, o.subOk),
+    hasRt := fun p => p.respTopic.isSome,
+    dumpNone := fun cl =>
+      match ops.leavesBelow [] with
+      | some ls => { cl with st := .Multipart, pending := { remaining := ls, respTopic := none, cd := none } }
+      | none => cl,
+    iterList := fun cl =>
+      let r := iterList (clientOf tmo o.now cl) o.slots
+      { cl with st := stToGen r.1.st, pending := r.1.pending, ext := (cl.ext.1, cl.ext.2 ++ r.2) },
+    iterDump := fun cl =>
+      let r := iterDump ops pfx cl.ext.1 (clientOf tmo o.now cl) o.slots o.tooLarge
+      { cl with st := stToGen r.1.st, pending := r.1.pending, ext := (cl.ext.1, cl.ext.2 ++ r.2) },
+    poll := fun cl =>
+      let r := pollStep ops pfx (clientOf tmo o.now cl) cl.ext.1 o.poll
+      ({ cl with st := stToGen r.1.st, pending := r.1.pending, ext := (r.2.1, cl.ext.2 ++ r.2.2.1) }, retToGen r.2.2.2) }
+
+/-- the guard `timed_out` and nothing else -/
+def guardOf (tmo : Option Nat) (now : Nat) : String → Bool := fun _ =>
+  match tmo with
+  | some t => decide (t ≤ now)
+  | none => false
+
+def boolOfRet : Mqtt.Ret → Except Unit Bool
+  | .changed => .ok true
+  | .unchanged => .ok false
+  | _ => .error ()
+
+theorem map_retToGen (r : Mqtt.Ret) :
+    Except.map (fun c => decide (c = Gen.Mqtt.Ret.Changed)) (retToGen r) = boolOfRet r := by
+  cases r <;> rfl
+
+theorem stToGen_ofGen (s : SmState) : stToGen (stOfGen s) = s := by cases s <;> rfl
+
+theorem handleMsg_timeout {σ : Type} (ops : SettingsOps σ) (pfx : Str) (c : Client) (s : σ) (m : Req) (cp fits : Bool) :
+    (handleMsg ops pfx c s m cp fits).1.timeout = c.timeout := by
+  unfold handleMsg
+  repeat' split
+  all_goals rfl
+
+theorem pollStep_timeout {σ : Type} (ops : SettingsOps σ) (pfx : Str) (c : Client) (s : σ) (p : PollObs) :
+    (pollStep ops pfx c s p).1.timeout = c.timeout := by
+  cases p <;> simp [pollStep, Client.reset, handleMsg_timeout]
+
+theorem iterList_timeout (c : Client) (k : Nat) : (iterList c k).1.timeout = c.timeout := by
+  unfold iterList; split <;> rfl
+
+theorem iterDump_timeout {σ : Type} (ops : SettingsOps σ) (pfx : Str) (s : σ) (c : Client) (k : Nat) (b : List Bool) :
+    (iterDump ops pfx s c k b).1.timeout = c.timeout := rfl
+
+/-- **`MqttClient::update` as translated is the model's `step`**: it never panics by itself; the protocol state, the pending
+request, the settings and everything put on the wire (alive / SUBSCRIBE, what `iter_list` / `iter_dump` / `poll` sent, in
+order) are the model's; the dump time-out is armed exactly when the `start_timeout` action ran; the result is `poll`'s
+mapped to "settings changed". -/
+theorem update_tie {σ : Type} (ops : SettingsOps σ) (pfx : Str) (c : Client) (s : σ) (o : Obs) :
+    ∃ cl r, update ({ pubGet := .ok (), mpTry := .error "", mpRoot := fun _ => none, setRes := .ok 0,
+                      guard := guardOf c.timeout o.now } : Env Unit Unit Pending)
+        (uenvOf ops pfx c.timeout o)
+        ({ st := stToGen c.st, pending := c.pending, ext := (s, []) } : UCl σ) = .val (cl, r) ∧
+      let m := step ops pfx c s o
+      m.1.st = stOfGen cl.st ∧ m.1.pending = cl.pending ∧ m.1.timeout = tmoOf c.timeout o.now cl.log ∧
+      m.2.1 = cl.ext.1 ∧ m.2.2.1 = cl.ext.2 ∧ boolOfRet m.2.2.2 = r := by
+  obtain ⟨st, tmo, pend⟩ := c
+  cases hconn : o.connected
+  · -- link down: `Reset`, then the `Connect` arm does nothing
+    cases st <;>
+      simp [update, step, arm, Client.reset, processEvent, smStep, uenvOf, guardOf, hconn, stToGen.eq_1, stToGen.eq_2,
+        stToGen.eq_3, stToGen.eq_4, stToGen.eq_5, stToGen.eq_6, stToGen.eq_7, clientOf, tmoOf, stOfGen.eq_1,
+        map_retToGen, stOfGen_toGen, pollStep_timeout] <;>
+      (refine ⟨_, _, ⟨rfl, rfl⟩, ?_⟩; simp [stOfGen_toGen, tmoOf])
+  · cases st
+    case connect =>
+      simp [update, step, arm, processEvent, smStep, uenvOf, guardOf, hconn, stToGen.eq_1, clientOf, tmoOf, stOfGen.eq_2,
+        map_retToGen, stOfGen_toGen, pollStep_timeout] <;>
+      (refine ⟨_, _, ⟨rfl, rfl⟩, ?_⟩; simp [stOfGen_toGen, tmoOf])
+    case alive =>
+      cases ha : o.aliveOk <;>
+        simp [update, step, arm, processEvent, smStep, uenvOf, guardOf, hconn, ha, stToGen.eq_2, clientOf, tmoOf,
+          stOfGen.eq_2, stOfGen.eq_3, map_retToGen, stOfGen_toGen, pollStep_timeout] <;>
+      (refine ⟨_, _, ⟨rfl, rfl⟩, ?_⟩; simp [stOfGen_toGen, tmoOf])
+    case subscribe =>
+      cases hs : o.subOk <;>
+        simp [update, step, arm, processEvent, smStep, uenvOf, guardOf, hconn, hs, stToGen.eq_3, clientOf, tmoOf,
+          stOfGen.eq_3, stOfGen.eq_4, map_retToGen, stOfGen_toGen, pollStep_timeout] <;>
+      (refine ⟨_, _, ⟨rfl, rfl⟩, ?_⟩; simp [stOfGen_toGen, tmoOf])
+    case wait =>
+      cases tmo with
+      | none =>
+        simp [update, step, arm, processEvent, smStep, uenvOf, guardOf, hconn, stToGen.eq_4, clientOf, tmoOf,
+          stOfGen.eq_4, map_retToGen, stOfGen_toGen, pollStep_timeout] <;>
+      (refine ⟨_, _, ⟨rfl, rfl⟩, ?_⟩; simp [stOfGen_toGen, tmoOf])
+      | some t =>
+        by_cases ht : t ≤ o.now <;>
+          simp [update, step, arm, processEvent, smStep, uenvOf, guardOf, hconn, ht, stToGen.eq_4, clientOf, tmoOf,
+            stOfGen.eq_4, stOfGen.eq_5, map_retToGen, stOfGen_toGen, pollStep_timeout] <;>
+      (refine ⟨_, _, ⟨rfl, rfl⟩, ?_⟩; simp [stOfGen_toGen, tmoOf])
+    case init =>
+      cases hl : ops.leavesBelow [] <;>
+        simp [update, step, arm, processEvent, smStep, uenvOf, guardOf, hconn, hl, stToGen.eq_5, clientOf, tmoOf,
+          stOfGen.eq_5, stOfGen.eq_6, map_retToGen, stOfGen_toGen, pollStep_timeout] <;>
+      (refine ⟨_, _, ⟨rfl, rfl⟩, ?_⟩; simp [stOfGen_toGen, tmoOf])
+    case multipart =>
+      have eD : ∀ x : Client, x.timeout = tmo →
+          ({ st := x.st, timeout := tmo, pending := x.pending } : Client) = x := by
+        intro x hx; cases x; simp_all
+      have hD := eD _ (iterDump_timeout ops pfx s ⟨.multipart, tmo, pend⟩ o.slots o.tooLarge)
+      have hL := eD _ (iterList_timeout ⟨.multipart, tmo, pend⟩ o.slots)
+      cases hr : pend.respTopic <;>
+        simp [update, step, arm, processEvent, smStep, uenvOf, guardOf, hconn, hr, stToGen.eq_6, clientOf, tmoOf,
+          stOfGen.eq_6, map_retToGen, stOfGen_toGen, pollStep_timeout, iterList_timeout, iterDump_timeout] <;>
+      (refine ⟨_, _, ⟨rfl, rfl⟩, ?_⟩; simp [stOfGen_toGen, tmoOf, hD, hL])
+    case single =>
+      simp [update, step, arm, processEvent, smStep, uenvOf, guardOf, hconn, stToGen.eq_7, clientOf, tmoOf, stOfGen.eq_7,
+        map_retToGen, stOfGen_toGen, pollStep_timeout] <;>
+      (refine ⟨_, _, ⟨rfl, rfl⟩, ?_⟩; simp [stOfGen_toGen, tmoOf])
 
 end MiniconfVerif.GenTie
